@@ -464,16 +464,17 @@ def partly_zero_data(run, repo, tables):
     """heat capacities that vanish at the cold end of the grid only (an adsorbate whose vibrations are frozen out at
     T_low: Cp/R(100 K) of a 2000 cm^-1 mode is 1e-9) are data like any other: the Cp coefficients come from the
     least-squares fit, not from the shortcut for species without heat capacity.  Bounded instance: a concrete grid of
-    15 temperatures, first Cp entry zero, the other 14 generic (Shomate, NASA-7 and NASA-9 with one break at 800 K)."""
+    15 temperatures, first Cp entry zero, the other 14 generic (Shomate, NASA-7 with the break at 800 K, NASA-9 with a
+    break between 800 and 900 K)."""
     n = 0
     for fam, qual, extra in (('shomate', SHO + '.Shomate', lambda I: {'units': I.D.sym('units')}),
                              ('nasa', NASA + '.Nasa', lambda I: {'T_mid': C(800)}),
-                             ('nasa9', NASA + '.Nasa9', lambda I: {'T_mid': as_array(ListV([C(800)]))})):
+                             ('nasa9', NASA + '.Nasa9', lambda I: {'T_mid': as_array(ListV([I.D.sym('Tb0')]))})):
         ci = repo.cls(qual)
         owner, fn = repo.find_method(ci, 'from_data')
         con = '%s.%s.from_data' % (qual.split('.')[-2], qual.split('.')[-1])
         npts = 15
-        I = Interp(repo, order=RankOrder({'T_ref': 400}, const_ranks=True, fallback=_fallback_rank))
+        I = Interp(repo, order=RankOrder({'T_ref': 400, 'Tb0': 850}, const_ranks=True, fallback=_fallback_rank))
         bounded_data(I)
         bounded_extract(I)
         D = I.D
@@ -810,8 +811,9 @@ def shomate_written_out(run, repo, tables):
 def nasa9_written_out(run, repo, tables):
     """NASA-9 on the smallest grid of the property (15 temperatures 100 ... 1500 K and 15 generic heat capacities,
     written out entry by entry, so that the NUMBER of points per interval is known to the code): one interval, two
-    (break 800 K) and three (breaks 500 and 1000 K: four to five points per interval, fewer than the seven coefficients
-    fitted).  Every interval's vector has the evaluator's length and evaluates the model that was fitted to exactly the
+    (a break Tb0 between 800 and 900 K) and three (breaks between 500 and 600 K and between 1000 and 1100 K: four to
+    five points per interval, fewer than the seven coefficients fitted); the breaks are symbols ranked between two
+    neighbouring data points.  Every interval's vector has the evaluator's length and evaluates the model that was fitted to exactly the
     data points of that interval (either convention for a point ON a bound; consecutive intervals share no point and
     drop none between them); the species is anchored (T_ref = 450 K, first interval), H and S join at every break, the
     bounds are the span of the data; the caller's arrays are left as they were; a second species fitted from the same
@@ -823,7 +825,9 @@ def nasa9_written_out(run, repo, tables):
     npts = 15
     n = 0
     for breaks in ((), (7,), (4, 9)):
-        I = Interp(repo, order=RankOrder({'T_ref': 450, 'T_ref2': 350}, const_ranks=True, fallback=_fallback_rank))
+        ranks = {'T_ref': 450, 'T_ref2': 350}
+        ranks.update({'Tb%d' % j: 50 + 100 * (k + 1) for j, k in enumerate(breaks)})
+        I = Interp(repo, order=RankOrder(ranks, const_ranks=True, fallback=_fallback_rank))
         bounded_data(I)
         bounded_extract(I)
         fit_options(I)
@@ -835,10 +839,11 @@ def nasa9_written_out(run, repo, tables):
             I.data_kind['cp%d' % k] = 'generic'
             cps.append(D.sym('cp%d' % k))
         cp = as_array(ListV(cps))
-        tm = as_array(ListV([C(tvals[k]) for k in breaks]))
+        tbs = [D.sym('Tb%d' % j) for j in range(len(breaks))]
+        tm = as_array(ListV(list(tbs)))
         given = [('T', T, list(T.items)), ('CpoR', cp, list(cp.items)), ('T_mid', tm, list(tm.items))]
         key0 = '%d temperatures written out, %d interval(s)%s' % (
-            npts, len(breaks) + 1, ', break(s) at %s' % ', '.join('T[%d]' % k for k in breaks) if breaks else '')
+            npts, len(breaks) + 1, ', break(s) %s' % ', '.join('between T[%d] and T[%d]' % (k, k + 1) for k in breaks) if breaks else '')
         for sfx, which in (('', ''), ('2', SECOND)):
             key = key0 + which
             kw = {'name': 'sp' + sfx, 'T': T, 'CpoR': cp, 'T_ref': D.sym('T_ref' + sfx),
@@ -852,29 +857,30 @@ def nasa9_written_out(run, repo, tables):
                 break
             n += data_intact(run, con, key, given, owner, fn)
             why = []
-            edges = [0] + list(breaks) + [npts - 1]
+            edges = [-1] + list(breaks) + [npts - 1]
+            bnds = [C(tvals[0])] + tbs + [C(tvals[-1])]
             prev_end = None
             A = []
             for j, s_ in enumerate(segs.items):
-                # data points of interval j: T[edges[j]] .. T[edges[j+1]] with either convention at both bounds (also at
-                # the ends of the data: the code as it stands leaves the first data point out, see the NOTE of fit_rules)
-                lo_, hi_ = edges[j], edges[j + 1]
-                want = [list(range(a_, b_ + 1)) for a_ in ((lo_, lo_ + 1) if prev_end is None else (prev_end + 1,))
-                        for b_ in (hi_ - 1, hi_)]
+                # data points of interval j: those between its bounds; at the ends of the data either convention (the
+                # code as it stands leaves the first data point out, see the NOTE of fit_rules)
+                first = (0, 1) if j == 0 else (prev_end + 1,)
+                last = (npts - 2, npts - 1) if j == len(breaks) else (edges[j + 1],)
+                want = [list(range(a_, b_ + 1)) for a_ in first for b_ in last]
                 vec = pub(s_, 'a')
                 A.append(vec)
                 w, idx = bounded_vector(run, I, repo, 'nasa9', tab, con, key, 'nasas[%d].a' % j, vec, tvals, want, None,
                                         owner, fn)
                 why += w
-                prev_end = idx[-1] if idx else hi_
-                bl, bh = C(tvals[lo_]), C(tvals[hi_])
+                prev_end = edges[j + 1]
+                bl, bh = bnds[j], bnds[j + 1]
                 run.check(same(pub(s_, 'T_low'), bl) and same(pub(s_, 'T_high'), bh), 'DATAFLOW.bounds', con,
                           '%s interval %d' % (key, j), 'interval %d spans (%s, %s), not (%s, %s)'
                           % (j, show(pub(s_, 'T_low')), show(pub(s_, 'T_high')), show(bl), show(bh)), owner.module, fn)
             run.check(not why, 'DATAFLOW.fit-data', con, key, '%s - every interval is the fit of the data points between '
                       'its bounds' % '; '.join(why), owner.module, fn,
                       sample='Nasa9.from_data(T=linspace(100, 1500, 15), T_mid=%s)%s'
-                      % ([str(tvals[k]) for k in breaks], which))
+                      % ([show(t_) for t_ in tbs], which))
             n += 1 + len(segs.items)
             if not all(isinstance(v, ListV) and len(v) == tab['n'] for v in A):
                 continue
@@ -886,8 +892,8 @@ def nasa9_written_out(run, repo, tables):
                       owner.module, fn)
             run.check(same(S(A[0], Tref), D.sym('SoR_ref' + sfx)), 'ANCHOR.S', con, key,
                       'S/R(T_ref) is not SoR_ref (T_ref in the first interval)', owner.module, fn)
-            okc = all(same(H(A[j], C(tvals[k])), H(A[j + 1], C(tvals[k]))) and
-                      same(S(A[j], C(tvals[k])), S(A[j + 1], C(tvals[k]))) for j, k in enumerate(breaks))
+            okc = all(same(H(A[j], t_), H(A[j + 1], t_)) and same(S(A[j], t_), S(A[j + 1], t_))
+                      for j, t_ in enumerate(tbs))
             run.check(okc, 'CONT.H', con, key, 'H or S is discontinuous at a break temperature', owner.module, fn)
             run.check(same(get_public(I, o, 'T_low'), C(tvals[0])) and same(get_public(I, o, 'T_high'), C(tvals[-1])),
                       'DATAFLOW.bounds', con, key, 'the species reports the bounds (%s, %s), not the span of the data'
@@ -1155,7 +1161,15 @@ def entries(vec):
     return list(vec.items) if isinstance(vec, ListV) else [vec.r]
 
 
-def nasa7_pipeline(run, repo, tables):
+NASA7_FORMS = (('generic', 'scalar', ''), ('zero', 'none', ' [all-zero Cp data]'),
+               ('zero', 'scalar', ' [all-zero Cp data, T_mid one temperature]'),
+               ('zero', 'array', ' [all-zero Cp data, T_mid two candidates]'))
+# the same candidates as a plain Python list: its own group of instances (check), because the interpreter does not yet
+# decide what an ordering comparison of a number with a list does (Python raises TypeError), see REQ3_C03 item 3
+NASA7_LIST_FORM = (('zero', 'list', ' [all-zero Cp data, T_mid a list of two candidates]'),)
+
+
+def nasa7_pipeline(run, repo, tables, forms=NASA7_FORMS):
     ci = repo.cls(NASA + '.Nasa')
     owner, fn = repo.find_method(ci, 'from_data')
     run.fn(owner.qual + '.from_data')
@@ -1165,13 +1179,11 @@ def nasa7_pipeline(run, repo, tables):
     # all-zero Cp data with every documented form of T_mid (None, one temperature, a list of candidates): the
     # degenerate path still has to deliver an anchored, continuous species with ONE break temperature - whether that
     # is the user's value, one of the candidates or a data point is left open, all of them are ranked alike
-    forms = (('generic', 'scalar', ''), ('zero', 'none', ' [all-zero Cp data]'),
-             ('zero', 'scalar', ' [all-zero Cp data, T_mid one temperature]'),
-             ('zero', 'list', ' [all-zero Cp data, T_mid two candidates]'))
     for (label0, rank), (kind, form, tag) in itertools.product(
             (('T_ref<T_mid', 2), ('T_ref=T_mid', 3), ('T_ref>T_mid', 4)), forms):
         extra = {'none': None, 'scalar': lambda I_: {'T_mid': I_.D.sym('Tm')},
-                 'list': lambda I_: {'T_mid': as_array(ListV([I_.D.sym('Tma'), I_.D.sym('Tmb')]))}}[form]
+                 'array': lambda I_: {'T_mid': as_array(ListV([I_.D.sym('Tma'), I_.D.sym('Tmb')]))},
+                 'list': lambda I_: {'T_mid': ListV([I_.D.sym('Tma'), I_.D.sym('Tmb')])}}[form]
         ranks = {'Tm': 3, 'Tma': 3, 'Tmb': 3, 'T_ref': rank, 'T_ref2': rank}
         if kind == 'zero':
             # the documented fallback takes the break from the data: an entry of the temperature vector, ranked like
@@ -1646,7 +1658,20 @@ def check(run, repo):
         'above < max(T). (F) T_mid as a list on a grid of 15 written-out temperatures where a candidate leaves fewer '
         'than five points on one side (candidates in and out of order, smallest error first / middle / last): break, '
         'a_low and a_high are those of the candidate with the smallest error, fitted to exactly the points below '
-        'resp. above it.')
+        'resp. above it. (G) round 3: the abscissa of a fit may be any function of the temperature data alone (the '
+        'composition "model function at x(T)" is compared with the public Cp evaluator at T); what the least-squares '
+        'call is told besides the data is read: weights depending on the data or a loss other than the sum of squares '
+        'are a violation (DATAFLOW.fit-weights), options that only steer the search are neutral, anything else is '
+        'refused. Written-out grids of 15 temperatures (the number of points per segment is known to the code): one '
+        'NASA-7 break that leaves 4, 3 or 2 points on one side, NASA-9 with 1-3 intervals (breaks between two data '
+        'points), Shomate fitted twice from the same array objects in two units - on all of them, and on the species '
+        'of (F), length, slot/power identity (with the degree the fit was actually called with), data points of each '
+        'fit, anchor, continuity and bounds are decided as on data of unknown length. The caller\'s data arrays hold '
+        'after from_data what they held before (DATAFLOW.data-intact, every pipeline instance). All-zero Cp data are '
+        'run with every form of T_mid (None, one temperature, an array and a list of two candidates). '
+        'Nasa9.from_model: 1, 2, 3 intervals without a guess and breaks that are not to be optimised - from_data '
+        'receives n_interval-1 breaks, the optimiser\'s result resp. the caller\'s own. The groups of instances are '
+        'independent: a refusal in one does not hide a violation established in another.')
     run.assumptions = ['np.polyfit returns coefficients highest power first; curve_fit returns one value per parameter '
                        'of the model function after the first; a masked sub-vector of generic data is generic and '
                        'has more entries than any small constant it is compared with',
@@ -1656,11 +1681,15 @@ def check(run, repo):
                        'monotone in the candidate (growing, falling), not for other orders of the errors',
                        'bounded instances on concrete grids: degenerate Cp data on 15, 16 and 200 equally spaced '
                        'temperatures (the break chosen by Nasa.from_data itself); Cp zero at the first of 15 '
-                       'temperatures only (Shomate, NASA-7; NASA-9 selects its intervals with `&` of two boolean '
-                       'arrays, which the interpreter refuses on written-out arrays); candidate lists on 15 written-out '
+                       'temperatures only (Shomate, NASA-7, NASA-9); candidate lists on 15 written-out '
                        'temperatures: np.extract keeps the entries whose mask entry is True, the mean of a residual is '
                        'an uninterpreted positive number attributed to the candidate whose two fits it was computed '
                        'from, four orders of the errors',
+                       'a least-squares call without sigma / with the same sigma for every point, loss="linear" and '
+                       'infinite bounds minimises the plain sum of squared residuals; p0, method, jac, maxfev, '
+                       'absolute_sigma, check_finite do not change the minimiser; the weight of the fitted quantity on '
+                       'written-out grids is a constant or an integer power of T (Cp, Cp*T**2); the abscissa of a fit '
+                       'on a written-out grid is an affine function of the temperatures',
                        'two species per process, the second with the same data and options as the first; its reference '
                        'temperature lies on the same side of T_mid (NASA-7) resp. in the first interval (NASA-9, where '
                        'the known anchor findings concern the other intervals)']
@@ -1670,7 +1699,11 @@ def check(run, repo):
                      'ranks the candidates is an uninterpreted positive number, WHAT it is the mean of is not examined '
                      '(a screening error computed from a wrong polynomial still yields an anchored, continuous '
                      'two-segment least-squares fit, only a worse one; no threshold follows from the property)',
-                     'break temperatures strictly inside the range for user-supplied T_mid (no validation exists)']
+                     'break temperatures strictly inside the range for user-supplied T_mid (no validation exists)',
+                     'curve_fit with finite bounds or changed tolerances (refused: whether a bound is active depends on '
+                     'data and unit)',
+                     'which of the forms of T_mid the degenerate (all-zero / NaN) path honours: only that the species '
+                     'has ONE break temperature and is anchored and continuous']
     tables = slot_tables(run, repo)
     run.sample({'slot_tables': {k: {'powers': {i: str(p) for i, p in v['powers'].items()},
                                     'hconst': v['hconst'], 'sconst': v['sconst'], 'dead': v['dead']}
@@ -1695,6 +1728,7 @@ def check(run, repo):
     group('one break next to an end of a bounded grid', 3, small_segments, tables)
     group('default break search instances', 2, default_break_search)
     group('NASA-7 pipeline instances', 21, nasa7_pipeline, tables)
+    group('NASA-7 pipeline, all-zero data with a list of candidates', 6, nasa7_pipeline, tables, NASA7_LIST_FORM)
     group('NASA-7 fallback break instances', 6, nasa7_fallback_break)
     group('NASA-9 pipeline instances', 20, nasa9_pipeline, tables, 4 if run.tier == 'thorough' else 3)
     group('NASA-9 species bounds', 6, nasa9_species_bounds, 3)
